@@ -92,10 +92,12 @@ mutual
         ((a = true ∧ ∃ n, Net.parseAddr s = some n) ∨
          (Net.parseAddr s = none ∧
           (Regex.isMatch Generated.hostnameRe s = true ∨ Regex.isMatch Generated.netbiosRe s = true)))
-    -- the held path is empty (only when not required) or meets the existence constraint; it is a text `t` satisfying the
-    -- string options, or the resolution of such a (relative) text against the non-empty start directory — the options
+    -- the held path is empty (only when not required) or meets the existence constraint; under a non-empty start
+    -- directory it is empty or absolute (a relative text is never held there: it is resolved); it is a text `t` satisfying
+    -- the string options, or the resolution of such a (relative) text against the non-empty start directory — the options
     -- are NOT claimed of a resolved path (finding F25, see `filename_options_not_of_result`)
     | .filename o ex sd, req, v => ∃ s, v = .str s ∧ (req = true → s ≠ []) ∧ (s = [] ∨ ExistsSat E ex s) ∧
+        (∀ d, sd = some d → d ≠ [] → s = [] ∨ E.isabs s = true) ∧
         ∃ t, StrSat o req t ∧ (s = t ∨ ∃ d, sd = some d ∧ d ≠ [] ∧ t ≠ [] ∧ E.isabs t = false ∧ s = E.resolve d t)
     | .url o, req, v => ∃ s, v = .str s ∧ StrSat o req s ∧ E.urlOk s = true
     -- the algorithm of a held digest need not be the field's (finding F23): only the shape
@@ -334,6 +336,7 @@ theorem fileBad_false_iff (E : Env) (ex : Exists) (p : Str) : fileBad E ex p = f
 theorem fileRule_sat {E : Env} (hE : EnvOk E) {o : StrOpts} {req : Bool} {ex : Exists} {sd : Option Str} {v0 v : Val}
     (h : fileRule E o req ex sd v0 = .ok v) :
     ∃ s, v = .str s ∧ (req = true → s ≠ []) ∧ (s = [] ∨ ExistsSat E ex s) ∧
+        (∀ d, sd = some d → d ≠ [] → s = [] ∨ E.isabs s = true) ∧
         ∃ t, StrSat o req t ∧ (s = t ∨ ∃ d, sd = some d ∧ d ≠ [] ∧ t ≠ [] ∧ E.isabs t = false ∧ s = E.resolve d t) := by
   unfold fileRule at h
   obtain ⟨t, ht, h2⟩ := bind_ok h
@@ -341,7 +344,7 @@ theorem fileRule_sat {E : Env} (hE : EnvOk E) {o : StrOpts} {req : Bool} {ex : E
   by_cases hte : t.isEmpty = true
   · simp only [hte, if_true] at h2
     cases h2
-    exact ⟨t, rfl, hsat.nonempty, Or.inl (by simpa using hte), t, hsat, Or.inl rfl⟩
+    exact ⟨t, rfl, hsat.nonempty, Or.inl (by simpa using hte), fun _ _ _ => Or.inl (by simpa using hte), t, hsat, Or.inl rfl⟩
   · have hte' : t.isEmpty = false := by simpa using hte
     have htne : t ≠ [] := by simpa using hte
     simp only [hte', Bool.false_eq_true, if_false] at h2
@@ -351,36 +354,42 @@ theorem fileRule_sat {E : Env} (hE : EnvOk E) {o : StrOpts} {req : Bool} {ex : E
       simp [hb] at h2
       subst h2
       have hex := (fileBad_false_iff E ex _).1 hb
-      -- the path is the text itself, or its resolution against a non-empty start directory
-      have hpath : filePath E sd t = t ∨ ∃ d, sd = some d ∧ d ≠ [] ∧ E.isabs t = false ∧ filePath E sd t = E.resolve d t := by
+      -- the path is the text itself (absolute, if there is a non-empty start directory), or its resolution against a
+      -- non-empty start directory
+      have hpath : (filePath E sd t = t ∧ ∀ d, sd = some d → d ≠ [] → E.isabs t = true) ∨
+          ∃ d, sd = some d ∧ d ≠ [] ∧ E.isabs t = false ∧ filePath E sd t = E.resolve d t := by
         cases sd with
-        | none => exact Or.inl rfl
+        | none => exact Or.inl ⟨rfl, fun d hd => by cases hd⟩
         | some d =>
           by_cases hab : E.isabs t = true
-          · exact Or.inl (by simp [filePath, hab])
+          · exact Or.inl ⟨by simp [filePath, hab], fun _ _ _ => hab⟩
           · by_cases hd : d.isEmpty = true
-            · exact Or.inl (by simp [filePath, hd])
+            · refine Or.inl ⟨by simp [filePath, hd], ?_⟩
+              intro d' hd' hne
+              cases hd'
+              exact absurd (by simpa using hd) hne
             · have hab' : E.isabs t = false := by simpa using hab
               have hd' : d.isEmpty = false := by simpa using hd
               exact Or.inr ⟨d, rfl, by simpa using hd, hab', by simp [filePath, hab', hd']⟩
-      rcases hpath with hp | ⟨d, hsd, hdne, hab, hp⟩
+      rcases hpath with ⟨hp, habs⟩ | ⟨d, hsd, hdne, hab, hp⟩
       · rw [hp] at hex ⊢
-        exact ⟨t, rfl, fun _ => htne, Or.inr hex, t, hsat, Or.inl rfl⟩
+        exact ⟨t, rfl, fun _ => htne, Or.inr hex, fun d hd hne => Or.inr (habs d hd hne), t, hsat, Or.inl rfl⟩
       · rw [hp] at hex ⊢
         have hrne : E.resolve d t ≠ [] := by
           intro e
           have hra := hE.resolve_abs d t
           rw [e, hE.empty_not_abs] at hra
           cases hra
-        exact ⟨_, rfl, fun _ => hrne, Or.inr hex, t, hsat, Or.inr ⟨d, hsd, hdne, htne, hab, rfl⟩⟩
+        exact ⟨_, rfl, fun _ => hrne, Or.inr hex, fun d' _ _ => Or.inr (hE.resolve_abs d t), t, hsat,
+          Or.inr ⟨d, hsd, hdne, htne, hab, rfl⟩⟩
 
 /-! ## 3. Soundness -/
 
 mutual
   /-- **Validation is sound for the declared constraints**: whatever the input (of whatever type), whatever `validate`
       returns satisfies everything the field declares — at every nesting depth of typed lists and dicts.
-      `EnvOk` (a resolved path is absolute, the empty path is not) is used for one clause only: a required filename field
-      whose text was resolved against the start directory holds a non-empty path. -/
+      `EnvOk` (a resolved path is absolute, the empty path is not) is used for the filename field with a start directory
+      only: a text that was resolved against the start directory is held as an absolute — hence non-empty — path. -/
   theorem validate_sound (E : Env) (hE : EnvOk E) : ∀ (f : FieldSpec) (v0 v : Val), validate E f v0 = .ok v → Sat E f v
     | .mk k req (some c), v0, v, h => by simp only [Sat]
     | .mk k req none, v0, v, h => by
